@@ -1,134 +1,10 @@
 import JadeModel.Proofs.SystemLive
+import JadeModel.Proofs.SystemLive1Defs
+import JadeModel.Proofs.SystemLiveStep1
+import JadeModel.Proofs.SystemLiveStep2
 
 set_option linter.unusedSimpArgs false
 
-/-!
-Fault-free executions, part 2: what the role holder knows (consequences of "no orphaned marker"), rows
+/-! Fault-free executions, part 2: what the role holder knows (consequences of "no orphaned marker"), rows
 behind every DONE state, and the accounting of node runners: a batch that ended has a row for each job.
--/
-
-namespace Jade.Sys
-
-theorem not_orphan {s : Sys} (hr : RoleInv s) (h0 : Live0 s) : ¬ Orphan s := by
-  rintro ⟨hm, hn⟩
-  obtain ⟨q, y, hq, hpc⟩ := h0.noOrphan hm
-  have h1 := hn q true y hq
-  have h2 := hr.marked q true y hq hpc
-  rcases hpc with h | h <;> simp [owns, h2, h] at h1
-
-theorem holderSub_of {s : Sys} (hr : RoleInv s) {q : Pid} {a : Bool} {y : SubP}
-    (hq : s.procs q = .sub a y) (hh : holds y.pc = true) : holderSub s = some y := by
-  simp [holderSub, hr.holder q a y hq hh, hq]
-
-/-- the role holder believes every active batch active -/
-theorem holder_tracked {s : Sys} (hc : CapInv s) (h0 : Live0 s) {q : Pid} {a : Bool} {y : SubP}
-    (hq : s.procs q = .sub a y) (hh : holds y.pc = true) (k : Hid) (hk : activeB s k = true) : k ∈ y.out := by
-  have hr := hc.node.batch.role
-  rcases hc.tracked k hk with h | h
-  · simpa [trackedIds, holderSub_of hr hq hh] using h
-  · exact absurd h (not_orphan hr h0)
-
-theorem free_tracked {s : Sys} (hc : CapInv s) (h0 : Live0 s) (hs : s.submitter = none) (k : Hid)
-    (hk : activeB s k = true) : k ∈ s.disk.ids := by
-  have hr := hc.node.batch.role
-  rcases hc.tracked k hk with h | h
-  · simpa [trackedIds, holderSub, hs] using h
-  · exact absurd h (not_orphan hr h0)
-
-/-- a job that is in a batch is not NOT_SUBMITTED for the role holder, unless it was handed over in
-    this very round -/
-theorem holder_batch_st {s : Sys} (hb : BatchInv s) (h0 : Live0 s) {q : Pid} {a : Bool} {y : SubP}
-    (hq : s.procs q = .sub a y) (hh : holds y.pc = true) (B : Batch) (hB : B ∈ s.batches) (j : JobId)
-    (hj : j ∈ B.jobs) : y.loc.st j ≠ .ns ∨ j ∈ y.pend := by
-  have hr := hb.role
-  rcases hb.jobs B hB j hj with h | h | h
-  · exact Or.inl (hb.locSt q a y hq hh j h)
-  · exact Or.inr (by simpa [holderPend, holderSub_of hr hq hh] using h)
-  · exact absurd h (not_orphan hr h0)
-
-theorem free_batch_st {s : Sys} (hb : BatchInv s) (h0 : Live0 s) (hs : s.submitter = none) (B : Batch)
-    (hB : B ∈ s.batches) (j : JobId) (hj : j ∈ B.jobs) : s.disk.st j ≠ .ns := by
-  have hr := hb.role
-  rcases hb.jobs B hB j hj with h | h | h
-  · exact h
-  · simp [holderPend, holderSub, hs] at h
-  · exact absurd h (not_orphan hr h0)
-
-/-- batch indices identify batches -/
-theorem bid_unique {bs : List Batch} (hn : (bs.map (·.bid)).Nodup) {b b' : Batch}
-    (hb : b ∈ bs) (hb' : b' ∈ bs) (he : b.bid = b'.bid) : b = b' := by
-  induction bs with
-  | nil => cases hb
-  | cons c cs ih =>
-    simp only [List.map_cons, List.nodup_cons, List.mem_map, not_exists, not_and] at hn
-    rcases List.mem_cons.1 hb with h1 | h1 <;> rcases List.mem_cons.1 hb' with h2 | h2
-    · rw [h1, h2]
-    · subst h1; exact absurd he.symm (hn.1 b' h2)
-    · subst h2; exact absurd he (hn.1 b h1)
-    · exact ih hn.2 h1 h2
-
-/-- some row of `l` is for job `j` -/
-def HasJob (l : List Row) (j : JobId) : Prop := ∃ r ∈ l, r.job = j
-
-@[grind =] theorem hasJob_nil (j : JobId) : HasJob [] j ↔ False := by simp [HasJob]
-
-@[grind =] theorem hasJob_append (l m : List Row) (j : JobId) : HasJob (l ++ m) j ↔ (HasJob l j ∨ HasJob m j) := by
-  simp only [HasJob, List.mem_append]
-  constructor
-  · rintro ⟨r, h | h, e⟩
-    · exact Or.inl ⟨r, h, e⟩
-    · exact Or.inr ⟨r, h, e⟩
-  · rintro (⟨r, h, e⟩ | ⟨r, h, e⟩)
-    · exact ⟨r, Or.inl h, e⟩
-    · exact ⟨r, Or.inr h, e⟩
-
-@[grind =] theorem hasJob_single (r : Row) (j : JobId) : HasJob [r] j ↔ r.job = j := by simp [HasJob]
-
-@[grind =] theorem mem_jobs (l : List Row) (j : JobId) : j ∈ List.map (fun x => x.job) l ↔ HasJob l j := by
-  simp [HasJob]
-
-theorem hasJob_of_mem {l : List Row} {r : Row} (h : r ∈ l) : HasJob l r.job := ⟨r, h, rfl⟩
-
-/-- rows behind DONE: whatever a round has seen is in the consolidated file -/
-structure Live1 (s : Sys) : Prop where
-  passProc : ∀ q a y, s.procs q = .sub a y → ∀ j : JobId, HasJob y.pass j → HasJob s.processed j
-  newlyProc : ∀ q a y, s.procs q = .sub a y → ∀ j ∈ y.newly, HasJob s.processed j
-  locDone : ∀ q a y, s.procs q = .sub a y → ∀ j : JobId, y.loc.st j = .done →
-    HasJob s.processed j ∨ j ∈ y.toCancel
-  diskDone : ∀ j : JobId, s.disk.st j = .done → HasJob s.processed j
-
-theorem live1_init (sc : Scn) : Live1 (init sc) := by
-  refine ⟨?_, ?_, ?_, ?_⟩ <;> simp [init]
-
-set_option maxHeartbeats 16000000 in
-theorem live1_step {s s' : Sys} {op : Op} (h0 : Live0 s) (hi : Live1 s) (h : stepP s op = some s') :
-    Live1 s' := by
-  obtain ⟨a1, a2, a3, a4, a5, a6⟩ := h0
-  obtain ⟨b1, b2, b3, b4⟩ := hi
-  plain_cases op h hs hg <;> (refine ⟨?_, ?_, ?_, ?_⟩ <;> frame_out)
-  all_goals first
-    | grind [SubP.load, persistStatus, find?_hid, afterCollect, afterPersist]
-
-/-- node accounting: every job of a started batch is queued, running, or has a row; a batch ends only
-    when its queue is drained -/
-structure Live2 (s : Sys) : Prop where
-  nodeAcct : ∀ p a n, s.procs p = .node a n → ∀ B ∈ s.batches, B.hid = some n.hid → ∀ j ∈ B.jobs,
-    j ∈ n.queued ∨ j ∈ n.running ∨ HasJob (s.nodeFile B.bid) j ∨ HasJob s.processed j
-  endedRows : ∀ h : Hid, s.slurm h = some .ended → ∀ B ∈ s.batches, B.hid = some h → ∀ j ∈ B.jobs,
-    HasJob (s.nodeFile B.bid) j ∨ HasJob s.processed j
-  aliveRunning : ∀ p n, s.procs p = .node true n → s.slurm n.hid = some .running
-  fileRows : ∀ b : Bid, ∀ j : JobId, HasJob (s.nodeFile b) j → ∃ B ∈ s.batches, B.bid = b ∧ j ∈ B.jobs
-
-theorem live2_init (sc : Scn) : Live2 (init sc) := by
-  refine ⟨?_, ?_, ?_, ?_⟩ <;> simp [init, HasJob]
-
-set_option maxHeartbeats 16000000 in
-theorem live2_step {s s' : Sys} {op : Op} (hn : NodeInv s) (hi : Live2 s) (h : stepP s op = some s') :
-    Live2 s' := by
-  obtain ⟨-, n1, n2, n3, n4, n5, n6, n7, n8⟩ := hn
-  obtain ⟨b1, b2, b3, b4⟩ := hi
-  plain_cases op h hs hg <;> (refine ⟨?_, ?_, ?_, ?_⟩ <;> frame_out)
-  all_goals first
-    | grind [SubP.load, persistStatus, find?_hid]
-
-end Jade.Sys
+ -/
